@@ -216,7 +216,7 @@ pub fn rdata_strategy() -> impl Strategy<Value = (u16, RData)> {
         4 => (any_class(), prop::collection::vec(cstring(), 1..5)).prop_map(|(c, s)| (c, RData::Txt(s))),
         2 => (any::<[u16; 3]>(), zname()).prop_map(|(v, target)| (mr::C_IN, RData::Srv { priority: v[0], weight: v[1], port: v[2], target })),
         1 => (zname(), any::<u16>()).prop_map(|(n, a)| (mr::C_CH, RData::ChA(n, a))),
-        2 => (any::<[u8; 4]>(), prop_oneof![Just(6u8), Just(17u8), any::<u8>()], prop::collection::vec(prop_oneof![0u16..100, any::<u16>()], 0..5)).prop_map(|(addr, proto, ports)| (mr::C_IN, RData::Wks { addr, proto, ports })),
+        2 => (any::<[u8; 4]>(), prop_oneof![Just(6u8), Just(17u8), any::<u8>()], prop::collection::vec(prop_oneof![4 => 0u16..100, 3 => any::<u16>(), 1 => Just(65535u16), 1 => Just(65534u16), 1 => 65527u16..=65535], 0..5)).prop_map(|(addr, proto, ports)| (mr::C_IN, RData::Wks { addr, proto, ports })),
         // unknown types, and known types in classes where they are not defined: generic form only
         3 => (prop_oneof![Just(mr::C_IN), Just(mr::C_CH), Just(300u16)], prop_oneof![Just(99u16), Just(257u16), Just(65280u16), Just(17u16), Just(mr::T_AAAA), Just(mr::T_SRV), Just(mr::T_WKS), Just(mr::T_A)], prop::collection::vec(any::<u8>(), 0..30)).prop_map(|(c, t, b)| {
             // keep the combination one the parser does not know
